@@ -53,7 +53,9 @@ Record rst : Type := {
 Definition r_init_fuel (fuel : nat) (cap0 : N) (script : list rd) (input : list N) : rst :=
   {| r_win := []; r_wlen := 0; r_off := 0; r_cap := cap0; r_rest := input; r_rlen := N.of_nat (length input);
      r_script := script; r_stack := []; r_queue := []; r_last := 0; r_det := false; r_bad := None; r_fuel := fuel |}.
-Definition default_fuel (script : list rd) (input : list N) : nat := (4 * length input + 4 * length script + 64)%nat.
+(* the budget bounds the nesting depth of read_next/buffer_master and the number of bytes try_recover can skip; neither
+   depends on how the source chunks its reads *)
+Definition default_fuel (script : list rd) (input : list N) : nat := (4 * length input + 64)%nat.
 Definition r_init (cap0 : N) (script : list rd) (input : list N) : rst :=
   r_init_fuel (default_fuel script input) cap0 script input.
 
